@@ -4,4 +4,4 @@ Require Import Ojg.Jp.Expr Ojg.Jp.Show.
 Require Import Ojg.Alt.Diff Ojg.Alt.Show Ojg.Alt.Convert Ojg.Asm.Eval Ojg.Enc.Struct Ojg.Sen.SenStr Ojg.Jp.PathText.
 Extraction Language OCaml.
 Extraction "model.ml" model_parse model_parse_chunks spec_accepts spec_parse
-  model_get model_match model_locate model_locate_ses model_locate_rv model_first model_has model_mutate model_mutate_one model_mutate_live model_jpstr model_jpread print_path print_path_b print_path_h model_jpparse model_jpparse_h model_write model_diff model_matchdoc model_convert model_asm model_enc sen_string show_read hexs sen_array show_read_array.
+  model_get model_match model_locate model_locate_ses model_locate_rv model_first model_has model_mutate model_mutate_one model_mutate_live model_jpstr model_jpread print_path print_path_b print_path_h model_jpparse model_jpparse_h model_write model_diff model_matchdoc model_convert model_asm model_enc sen_string show_read hexs sen_array show_read_array sen_object show_read_object.
